@@ -321,6 +321,8 @@ class UpgradedParameter(_util.funcsigs.Parameter):
 def _upgrade_parameters_with_warning(parameters, stacklevel=1):
     if parameters is None:
         return None
+    # any iterable is accepted, as by inspect.Signature: it is traversed twice below
+    parameters = list(parameters)
     if all(isinstance(param, UpgradedParameter) for param in parameters):
         return parameters
     else:
